@@ -360,6 +360,79 @@ def c12_native():
                 return n, dict(observed='_simple_test_transmission_ with u01=0.4, p=%s returned %s using %d draws' % (p, got, len(s.us)))
     finally:
         sim_mod.random = old
+    # basic_discrete_SIR / basic_discrete_SIS / percolation_based_discrete_SIR: ONE draw per infectious->susceptible contact (per kept
+    # edge for the percolation variant), compared with p; exactly the successful contacts infect.  Scripted random source; the draw
+    # sequence with a single success is moved over every position.
+    class Seq:
+        def __init__(self, us): self.us, self.k = list(us), 0
+        def random(self):
+            u = self.us[self.k] if self.k < len(self.us) else 0.99
+            self.k += 1
+            return u
+        def sample(self, pop, k): return list(pop)[:k]
+        def choice(self, seq): return seq[0]
+        def expovariate(self, r): return 1.0
+    G = nx.Graph(); G.add_edges_from([(0, 1), (0, 2), (1, 2), (2, 3), (3, 4), (1, 4)]); G.add_node(5)
+    pval = 0.35
+    try:
+        for name, seeds in (('basic_discrete_SIS', [0, 3]), ('basic_discrete_SIR', [0, 3]), ('basic_discrete_SIS', [2]), ('basic_discrete_SIR', [2])):
+            f = getattr(EoN, name)
+            contacts = [(u, v) for u in seeds for v in G.neighbors(u) if v not in seeds]
+            targets_seen = []
+            for pos in range(-1, len(contacts)):
+                n += 1
+                us = [0.9] * len(contacts)
+                if pos >= 0:
+                    us[pos] = 0.1
+                src = Seq(us); sim_mod.random = src
+                try:
+                    sim = f(G, pval, initial_infecteds=list(seeds), tmin=2, tmax=3, return_full_data=True)
+                finally:
+                    sim_mod.random = old
+                wit = dict(simulator=name, edges=list(G.edges()), initial_infecteds=seeds, p=pval, uniform_draws=us)
+                if src.k != len(contacts):
+                    wit['observed'] = 'the first step consumed %d uniform draws, there are %d infectious-susceptible contacts' % (src.k, len(contacts))
+                    return n, wit
+                newly = [u for u in G if u not in seeds and sim.node_status(u, 3) == 'I']
+                if pos < 0 and newly:
+                    wit['observed'] = 'no contact succeeded (all draws >= p) but %s got infected' % newly
+                    return n, wit
+                if pos >= 0:
+                    if len(newly) != 1 or newly[0] not in [v for _, v in contacts]:
+                        wit['observed'] = 'exactly one contact succeeded but the newly infected nodes are %s' % newly
+                        return n, wit
+                    targets_seen.append(newly[0])
+                want_old = 'S' if name.endswith('SIS') else 'R'
+                for u in seeds:
+                    if sim.node_status(u, 3) != want_old and not (name.endswith('SIS') and u in newly):
+                        wit['observed'] = 'node %s was infectious at step 0 and is %s one step later (expected %s)' % (u, sim.node_status(u, 3), want_old)
+                        return n, wit
+            if sorted(targets_seen) != sorted(v for _, v in contacts):
+                return n, dict(simulator=name, initial_infecteds=seeds, observed='moving the single success over the draws infected %s, the contact targets are %s' % (
+                    sorted(targets_seen), sorted(v for _, v in contacts)))
+        # percolate_network / percolation_based_discrete_SIR: one draw per edge, same node set, exactly the edges whose draw is below p
+        edges = list(G.edges())
+        kept_by_pos = []
+        for pos in range(-1, len(edges)):
+            n += 1
+            us = [0.9] * len(edges)
+            if pos >= 0:
+                us[pos] = 0.1
+            src = Seq(us); sim_mod.random = src
+            try:
+                Hh = EoN.percolate_network(G, pval)
+            finally:
+                sim_mod.random = old
+            wit = dict(function='percolate_network', edges=edges, p=pval, uniform_draws=us)
+            if src.k != len(edges) or set(Hh.nodes()) != set(G.nodes()) or Hh.number_of_edges() != (1 if pos >= 0 else 0) or any(not G.has_edge(a, b) for a, b in Hh.edges()):
+                wit['observed'] = '%d draws for %d edges; nodes %s; kept edges %s' % (src.k, len(edges), sorted(Hh.nodes()), list(Hh.edges()))
+                return n, wit
+            if pos >= 0:
+                kept_by_pos.append(frozenset(list(Hh.edges())[0]))
+        if len(set(kept_by_pos)) != len(edges):
+            return n, dict(function='percolate_network', observed='moving the single success over the draws kept the edges %s: not one edge per draw' % [sorted(e) for e in kept_by_pos])
+    finally:
+        sim_mod.random = old
     return n, None
 
 
